@@ -60,6 +60,31 @@ let () =
      while true do
        let l = input_line ic in
        match String.split_on_char ' ' l with
+       | "calc" :: id :: toks ->
+           (* tokens: numbers, ( ), binary operator spellings, unary as u- u! u~ *)
+           let rec pos_of_int i = if i = 1 then XH else if i land 1 = 0 then XO (pos_of_int (i lsr 1)) else XI (pos_of_int (i lsr 1)) in
+           let z_of_int i = if i = 0 then Z0 else if i > 0 then Zpos (pos_of_int i) else Zneg (pos_of_int (-i)) in
+           let rec int_of_pos = function XH -> 1 | XO p -> 2 * int_of_pos p | XI p -> 2 * int_of_pos p + 1 in
+           let int_of_z = function Z0 -> 0 | Zpos p -> int_of_pos p | Zneg p -> - (int_of_pos p) in
+           let rec parse (l : string list) : tok list * string list =
+             match l with
+             | [] -> ([], [])
+             | ")" :: r -> ([], r)
+             | "(" :: r -> let (inner, r') = parse r in let (rest, r'') = parse r' in (TParen inner :: rest, r'')
+             | t :: r ->
+                 let tk = match t with
+                   | "*" -> TBin OMul | "/" -> TBin ODiv | "+" -> TBin OAdd | "-" -> TBin OSub | "<<" -> TBin OShl
+                   | ">>" -> TBin OShr | "&&" -> TBin OLAnd | "||" -> TBin OLOr | "&" -> TBin OAnd | "^" -> TBin OXor
+                   | "|" -> TBin OOr | ">=" -> TBin OGte | ">" -> TBin OGt | "<=" -> TBin OLte | "<" -> TBin OLt
+                   | "==" -> TBin OEq | "!=" -> TBin ONeq | "?" -> TBin OQ | ":" -> TBin OColon
+                   | "u-" -> TUn UNeg | "u!" -> TUn UNot | "u~" -> TUn UBNot
+                   | n -> TNum (z_of_int (int_of_string n)) in
+                 let (rest, r') = parse r in (tk :: rest, r') in
+           let (ts, _) = parse (List.filter (fun x -> x <> "") toks) in
+           (match calc ts with
+            | COk v -> Printf.printf "@calc %s ok %d\n" id (int_of_z v)
+            | CDivZero -> Printf.printf "@calc %s divzero\n" id
+            | CStuck -> Printf.printf "@calc %s stuck\n" id)
        | "dec" :: id :: pieces ->
            let r = compile_quoted_string (List.map (fun p -> explode (unhex p)) (List.filter (fun x -> x <> "") pieces)) in
            Printf.printf "@dec %s %s\n" id (hex (implode r))
